@@ -17,7 +17,11 @@ Clause of the property text                     theorem(s)
   moisture adjustment reaches the target        moisture_reached, adjust_infeasible_iff
   phase split sends each phase to its outlet    phaseSplit_rows, phaseSplit_error_iff
   splits × mixed = first stream                 splits_roundtrip, splits_range
-  balance solver                                balance_solves, balance_factors_unique (balance_total_statement: not proved)
+  balance solver                                balance_solves, balance_total, balance_solves_invertible, balance_factors_unique
+  composition balance                           composition_balance, composition_fixed_point, composition_step_residual,
+                                                loop_ok; composition_noconv_example (no iteration cap in the code)
+  feed aliased to an outlet (code as found)     partitionAliased_top_ok, partitionAliased_top_counterexample,
+                                                partitionAliased_bottom_counterexample; mix_and_split is alias-safe
   outlets are inputs too (no stale leak)        partition_ignores_outlets; partitionAsIs_counterexample (code as found);
                                                 reused multi_stream holder: lle_ignores_holder, vle_ignores_holder,
                                                 holderLoad_total, lleFull_balance, vleFull_balance
@@ -903,18 +907,206 @@ theorem balance_factors_unique (A B : List (List Rat)) (b x x' : List Rat)
     (hx : matVec A x = b) (hx' : matVec A x' = b) (hl : x.length = b.length) (hl' : x'.length = b.length) : x = x' := by
   rw [← hinv x hl, ← hinv x' hl', hx, hx']
 
-/-- Full statement of the totality half of `balance_solves`: a left-invertible square system is solved (the model
-returns a result).  NOT proved: it needs completeness of `gaussJordan` (a pivot exists in every column of an
-invertible matrix and the eliminated system is the identity).  What is proved: `balance_solves` (every returned
-result closes the balance exactly, because `solveChecked` verifies `A x = b`) and `balance_factors_unique`.
-The driver reports `err=singular` whenever the model returns nothing; on every generated invertible system of the
-correspondence runs the model did return (and agreed with `numpy.linalg.solve`). -/
+/-- Totality half of `balance_solves`: a left-invertible square system is solved (the model returns a result).
+Proved below (`balance_total`) from soundness and completeness of the elimination
+(`solveRec_sound`, `solveRec_complete` in Lemmas/Separations.lean). -/
 def balance_total_statement : Prop :=
   ∀ (m : BalIn) (B : List (List Rat)), m.vin.length = m.idx.length → (∀ s ∈ m.vin, s.length = m.n) →
     (∀ y : List Rat, y.length = m.idx.length → matVec B (matVec m.A y) = y) →
     ∃ v, materialBalance m = .ok v
 
+theorem balIn_A_length (m : BalIn) : m.A.length = m.b.length := by simp [BalIn.A, BalIn.b]
+
+/-- **totality** — with as many variable inlets as chosen chemicals and a left-invertible inlet-composition matrix,
+`material_balance` returns (Gaussian elimination with the first-non-zero pivot rule finds a pivot in every column) -/
+theorem balance_total : balance_total_statement := by
+  intro m B hlen _ hinv
+  have hb : m.b.length = m.idx.length := by simp [BalIn.b]
+  have hrows : ∀ a ∈ m.A, a.length = m.b.length := by
+    intro a ha
+    obtain ⟨c, _, rfl⟩ := List.mem_map.mp ha
+    simp [hb, hlen]
+  obtain ⟨x, hx⟩ := solveChecked_total (B := B) (balIn_A_length m) hrows (by rw [hb]; exact hinv)
+  exact ⟨scaleInlets m.n x m.vin, by simp [materialBalance, hlen, hx]⟩
+
+/-- **the material-balance clause as one theorem** — for a left-invertible inlet-composition matrix the solver
+returns, and the scaled variable inlets make inlets − outlets vanish on every chosen chemical -/
+theorem balance_solves_invertible (m : BalIn) (B : List (List Rat)) (hlen : m.vin.length = m.idx.length)
+    (hidx : ∀ c ∈ m.idx, c < m.n)
+    (hinv : ∀ y : List Rat, y.length = m.idx.length → matVec B (matVec m.A y) = y) :
+    ∃ v, materialBalance m = .ok v ∧ ∀ c ∈ m.idx, m.residual v c = 0 := by
+  have hb : m.b.length = m.idx.length := by simp [BalIn.b]
+  have hrows : ∀ a ∈ m.A, a.length = m.b.length := by
+    intro a ha
+    obtain ⟨c, _, rfl⟩ := List.mem_map.mp ha
+    simp [hb, hlen]
+  obtain ⟨x, hx⟩ := solveChecked_total (B := B) (balIn_A_length m) hrows (by rw [hb]; exact hinv)
+  have hok : materialBalance m = .ok (scaleInlets m.n x m.vin) := by simp [materialBalance, hlen, hx]
+  exact ⟨_, hok, fun c hc => balance_solves m _ hok c hc (hidx c hc)⟩
+
+/-- non-vacuity: the identity matrix is its own left inverse -/
+example : ∀ y : List Rat, y.length = 2 → matVec [[1, 0], [0, 1]] (matVec [[1, 0], [0, 1]] y) = y := by
+  intro y hy
+  match y, hy with
+  | [a, b], _ => simp [matVec, dot]
+
 example : materialBalance { n := 2, idx := [0, 1], vin := [[1, 0], [0, 1]], cin := [[100, 0]], cout := [[200, 2], [0, 100]] }
     = .ok [[100, 0], [0, 102]] := by unfold materialBalance; decide +kernel
+
+/-! ## material_balance (`balance='composition'`) -/
+
+theorem sumL_replicate_zero (k : Nat) : sumL (List.replicate k (0 : Rat)) = 0 := by
+  induction k with
+  | zero => simp
+  | succ k ih => simp [List.replicate_succ, ih]
+
+theorem sumL_map_mul_right {α} (l : List α) (g : α → Rat) (f : Rat) :
+    sumL (l.map (fun a => g a * f)) = sumL (l.map g) * f := by
+  induction l with
+  | nil => simp
+  | cons a t ih => simp [ih]; ring
+
+theorem sum_dot_columns (n : Nat) (vin : List Vec) (x : List Rat) :
+    sumL ((List.range n).map (fun i => dot (vin.map (·.at i)) x)) = dot (vin.map (rowSum n)) x := by
+  induction vin generalizing x with
+  | nil => simp [dot_nil_left, sumL_replicate_zero]
+  | cons s t ih =>
+    cases x with
+    | nil => simp [dot_nil_right, sumL_replicate_zero]
+    | cons f fs =>
+      simp only [List.map_cons, dot_cons]
+      rw [sumL_map_add, ih fs, sumL_map_mul_right]
+      rfl
+
+/-- `S x` is the total flow of the variable inlets scaled by `x` -/
+theorem rowSum_scaleInlets (m : CompIn) (x : List Rat) :
+    m.S x = sumL ((List.range m.n).map (fun i => sumL ((scaleInlets m.n x m.vin).map (·.at i)))) := by
+  unfold CompIn.S CompIn.s
+  rw [← sum_dot_columns]
+  congr 1
+  apply List.map_congr_left
+  intro i hi
+  exact (sumL_scaleInlets m.n i (List.mem_range.mp hi) x m.vin).symm
+theorem shiftNeg_false (y : List Rat) (h : (shiftNeg y).2 = false) : (shiftNeg y).1 = y := by
+  unfold shiftNeg at *
+  by_cases hn : (y.filter (· < 0)).isEmpty = true
+  · simp [hn]
+  · simp [hn] at h
+
+/-- when the loop stops, the returned factors are one solve step away from the last guess and within the tolerance -/
+theorem loop_ok (m : CompIn) : ∀ (fuel : Nat) (xg : List Rat) (it : Nat) (x xp : List Rat) (sh : Bool) (it' : Nat),
+    m.loop fuel xg it = .ok (x, xp, sh, it') → m.step xp = some (x, sh) ∧ relChange2 x xp ≤ m.tol
+  | 0, _, _, _, _, _, _, h => by simp [CompIn.loop] at h
+  | fuel + 1, xg, it, x, xp, sh, it', h => by
+    unfold CompIn.loop at h
+    cases hs : m.step xg with
+    | none => simp [hs] at h
+    | some r =>
+      obtain ⟨xn, s⟩ := r
+      simp only [hs] at h
+      by_cases hc : relChange2 xn xg > m.tol
+      · simp only [hc, if_true] at h
+        exact loop_ok m fuel xn (it + 1) x xp sh it' h
+      · simp only [hc, if_false, Except.ok.injEq, Prod.mk.injEq] at h
+        obtain ⟨rfl, rfl, rfl, _⟩ := h
+        exact ⟨hs, le_of_not_gt hc⟩
+
+/-- one un-shifted step: for a chosen chemical, (scaled variable inlets + constant inlets) minus `f_c` times the
+total inlet flow `S x_new + G` equals `f_c · (S x_prev − S x_new)`.  (`S x` is the total flow of the variable inlets
+scaled by `x`, `rowSum_scaleInlets`.) -/
+theorem composition_step_residual (m : CompIn) (xp xn : List Rat) (h : solveChecked m.A (m.rhs xp) = some xn)
+    (c : Nat) (hc : c ∈ m.idx) (hcn : c < m.n) :
+    sumL ((scaleInlets m.n xn m.vin).map (·.at c)) + m.g c - m.f c * (m.S xn + m.G) = m.f c * (m.S xp - m.S xn) := by
+  obtain ⟨hAx, _⟩ := solveChecked_sound _ _ _ h
+  unfold matVec CompIn.A CompIn.rhs at hAx
+  rw [List.map_map] at hAx
+  have := List.map_inj_left.mp hAx c hc
+  simp only [Function.comp] at this
+  rw [sumL_scaleInlets m.n c hcn, this]
+  ring
+
+/-- **composition balance** — when `material_balance(balance='composition')` returns and the last solution was not
+shifted, then for every chosen chemical the inlets deviate from the outlet composition `f_c` times the total inlet
+flow by exactly `f_c` times the change of the total variable-inlet flow in the last iteration, and that last
+iteration changed the factors by at most the tolerance (sum of squared relative changes `≤ 1e-6`). -/
+theorem composition_balance (m : CompIn) (o : CompOut) (h : compositionBalance m = .ok o) (hsh : o.shifted = false)
+    (c : Nat) (hc : c ∈ m.idx) (hcn : c < m.n) :
+    sumL (o.vin.map (·.at c)) + m.g c - m.f c * (m.S o.x + m.G) = m.f c * (m.S o.xPrev - m.S o.x)
+      ∧ relChange2 o.x o.xPrev ≤ m.tol := by
+  unfold compositionBalance at h
+  split at h
+  · simp at h
+  · split at h
+    · simp at h
+    · rename_i x xp sh it hl
+      simp only [Except.ok.injEq] at h
+      subst h
+      simp only at hsh ⊢
+      obtain ⟨hstep, htol⟩ := loop_ok m _ _ _ _ _ _ _ hl
+      refine ⟨?_, htol⟩
+      unfold CompIn.step at hstep
+      cases hsol : solveChecked m.A (m.rhs xp) with
+      | none => simp [hsol] at hstep
+      | some y =>
+        simp only [hsol, Option.map_some, Option.some.injEq] at hstep
+        have h2 : (shiftNeg y).2 = false := by rw [hstep]; exact hsh
+        have h1 : (shiftNeg y).1 = x := by rw [hstep]
+        rw [shiftNeg_false y h2] at h1
+        subst h1
+        exact composition_step_residual m xp y hsol c hc hcn
+
+/-- at an exact fixed point the chosen chemicals enter in exactly the outlet composition -/
+theorem composition_fixed_point (m : CompIn) (o : CompOut) (h : compositionBalance m = .ok o) (hsh : o.shifted = false)
+    (hfix : o.xPrev = o.x) (c : Nat) (hc : c ∈ m.idx) (hcn : c < m.n) :
+    sumL (o.vin.map (·.at c)) + m.g c = m.f c * (m.S o.x + m.G) := by
+  have := (composition_balance m o h hsh c hc hcn).1
+  rw [hfix] at this
+  linarith
+
+/-- the code as found has no iteration cap; on this invertible system (the inlets carry chemicals that are not chosen,
+so the rank-one iteration is not a contraction) the model is still iterating after 80 steps — the real loop runs on
+until the floats overflow (fixes_proposed/C20-5.md) -/
+theorem composition_noconv_example :
+    compositionBalance { n := 4, idx := [0, 1], vin := [[4, 1/2, 0, 1/4], [1, 5, 1/2, 0]], cin := [[100, 0, 3, 0]],
+                         cout := [[200, 2, 0, 5], [0, 100, 0, 0]], fuel := 80, tol := 1/1000000 } = .error .noConv := by
+  unfold compositionBalance; decide +kernel
+
+example : (match compositionBalance { n := 2, idx := [0, 1], vin := [[1, 0], [0, 1]], cin := [[100, 0]],
+                                      cout := [[200, 2], [0, 100]], fuel := 80, tol := 1/1000000 } with
+           | .ok o => (o.iterations, o.shifted) | .error _ => (0, true)) = (3, false) := by
+  unfold compositionBalance; decide +kernel
+
+/-! ## aliasing: the feed object is one of the outlets -/
+
+/-- `top is feed` is harmless when no chemical is forced to the bottom -/
+theorem partitionAliased_top_ok (p : PartIn) (hb : p.botc = []) : partitionAliased p .top = partition p := by
+  unfold partitionAliased
+  cases hpo : partition p with
+  | error e => rfl
+  | ok o =>
+    simp only
+    unfold partition PartIn.run at hpo
+    by_cases hF : p.F = 0
+    · simp [hF] at hpo
+    simp only [hF, if_false] at hpo
+    split at hpo
+    · simp at hpo
+    · simp only [Except.ok.injEq] at hpo
+      subst hpo
+      simp [hb]
+
+/-- `top is feed` with a forced-bottom chemical (as found): that chemical leaves at the top with the flow `−feed` -/
+theorem partitionAliased_top_counterexample :
+    ∃ o, partitionAliased { n := 3, feed := [20, 20, 1], bot0 := [], ids := [0, 1], K := [1/2, 2], topc := [], botc := [2],
+                            phi := 1/2, strict := false } .top = .ok o ∧ o.top.at 2 = -1 := by
+  refine ⟨{ phi := 1/2, top := [20/3, 40/3, -1], bottom := [40/3, 20/3, 1], clipped := false, warned := false }, ?_, by decide +kernel⟩
+  unfold partitionAliased partition PartIn.run; decide +kernel
+
+/-- `bottom is feed` (as found): the feed is destroyed, the top comes out empty — the balance does not close -/
+theorem partitionAliased_bottom_counterexample :
+    ∃ o, partitionAliased { n := 3, feed := [20, 20, 1], bot0 := [], ids := [0, 1], K := [1/2, 2], topc := [2], botc := [],
+                            phi := 1/2, strict := false } .bottom = .ok o ∧ o.top.at 0 + o.bottom.at 0 ≠ 20 := by
+  refine ⟨{ phi := 1/2, top := [0, 0, 0], bottom := [40/3, 20/3, 0], clipped := false, warned := false }, ?_, by decide +kernel⟩
+  unfold partitionAliased partition PartIn.run; decide +kernel
 
 end ThermoVerif.Props.C20
